@@ -11,7 +11,7 @@ import (
 // C05-b: go-to-definition on every identifier occurrence of every template instance equals the
 // declaration the reference binder computes (Lua lexical scoping).
 
-func vpSkipName(n string) bool { return n == "pairs" || n == "self" || n == "require" }
+func vpSkipName(n string) bool { return n == "pairs" || n == "self" || n == "require" || n == "_G" }
 
 func c05class(r *rbT, o *rbOcc) string {
 	// known defect classes on the unchanged tree (see known_findings.txt)
